@@ -220,9 +220,67 @@ __CPROVER_loop_invariant(0 <= i && i <= min_thread_num && g_workers == (size_t)i
 __CPROVER_decreases(min_thread_num - i)
 ''',
 })
+# ---------------------------------------------------------------- cleanup
+EXTERN_C = EXTERN_COMMON + r'''
+void v_thrcab__foreach(struct v_thrcab *c, struct v_vec_v_threadp *out)
+__CPROVER_requires(g_tp->d_->lock.held == 1 && c == &g_tp->d_->threads_cabinet && out->size == 0)
+__CPROVER_assigns(out->size)
+__CPROVER_ensures(out->size == g_nthreads)                                  /* every worker of the cabinet is handed over for joining */
+;
+void v_thrcab__clear(struct v_thrcab *c)
+__CPROVER_requires(g_tp->d_->lock.held == 1)
+__CPROVER_assigns()
+__CPROVER_ensures(1)
+;
+void v_thread_join(struct v_thread *t)
+__CPROVER_requires(t == g_thr && g_tp->d_->lock.held == 0 && T(g_tp->d_->all_threads_stop_flag) && g_joins == g_deletes)      /* joined with the lock free and the stop request visible, else the worker can never leave */
+__CPROVER_assigns(g_joins)
+__CPROVER_ensures(g_joins == __CPROVER_old(g_joins) + 1)
+;
+void v_delete__v_thread(struct v_thread *t)
+__CPROVER_requires(t == g_thr && g_joins == g_deletes + 1)
+__CPROVER_assigns(g_deletes)
+__CPROVER_ensures(g_deletes == __CPROVER_old(g_deletes) + 1)
+;
+'''
+SPEC_C = dict(GUARD)
+SPEC_C.update({
+    ('prelude_early',): EARLY + 'struct v_thread; static struct v_thread *g_thr;\n', ('prelude',): PRELUDE + 'static size_t g_nthreads, g_joins, g_deletes, g_waiting0;\n', ('after_protos',): EXTERN_C,
+    ('contract', 'TP_cleanup'): TP_FRESH + r'''
+__CPROVER_requires(self->d_->lock.held == 0 && (self->d_->is_ready == 0 || self->d_->is_ready == 1) && ''' + LV_SMALL + r''' && g_nthreads < V_MAXSZ && __CPROVER_is_fresh(g_thr, sizeof(struct v_thread)))
+__CPROVER_assigns(g_tp, g_cab_frees, g_pool_frees, g_freed_tok, g_joins, g_deletes, g_waiting0, v_noblock_mutex, __exc, self->d_->lock.held, self->d_->all_threads_stop_flag, self->d_->is_ready,
+                  LV(self->d_, 0).size, LV(self->d_, 1).size, LV(self->d_, 2).size, LV(self->d_, 3).size, LV(self->d_, 4).size, v_vec_cabinet_Token_cell, v_vec_v_threadp_cell)
+__CPROVER_ensures(self->d_->lock.held == 0 && __exc == 0)
+__CPROVER_ensures(!T(__CPROVER_old(self->d_->is_ready)) ==> (g_joins == 0 && g_cab_frees == 0))
+__CPROVER_ensures(T(__CPROVER_old(self->d_->is_ready)) ==> (!T(self->d_->is_ready) && T(self->d_->all_threads_stop_flag) &&
+                  LV(self->d_, 0).size == 0 && LV(self->d_, 1).size == 0 && LV(self->d_, 2).size == 0 && LV(self->d_, 3).size == 0 && LV(self->d_, 4).size == 0 &&      /* no waiting task survives cleanup */
+                  g_cab_frees == g_waiting0 && g_pool_frees == g_waiting0 && g_joins == g_nthreads && g_deletes == g_nthreads))                                    /* each dropped once; every worker joined and deleted */
+''',
+    ('ghost', 'TP_cleanup', 'entry'): 'g_tp = self; g_cab_frees = 0; g_pool_frees = 0; g_joins = 0; g_deletes = 0; v_noblock_mutex = 0; __exc = 0;\n'
+        '  g_waiting0 = LV(self->d_, 0).size + LV(self->d_, 1).size + LV(self->d_, 2).size + LV(self->d_, 3).size + LV(self->d_, 4).size;',
+    ('loop', 'TP_cleanup', 1): r'''
+__CPROVER_assigns(i, __exc, g_cab_frees, g_pool_frees, g_freed_tok, LV(self->d_, 0).size, LV(self->d_, 1).size, LV(self->d_, 2).size, LV(self->d_, 3).size, LV(self->d_, 4).size, v_vec_cabinet_Token_cell)
+__CPROVER_loop_invariant(i <= 5 && __exc == 0 && self->d_->lock.held == 1 && g_cab_frees == g_pool_frees && ''' + LV_SMALL + r''')
+__CPROVER_loop_invariant((i <= 0 || LV(self->d_, 0).size == 0) && (i <= 1 || LV(self->d_, 1).size == 0) && (i <= 2 || LV(self->d_, 2).size == 0) && (i <= 3 || LV(self->d_, 3).size == 0) && (i <= 4 || LV(self->d_, 4).size == 0))
+__CPROVER_loop_invariant(g_cab_frees + LV(self->d_, 0).size + LV(self->d_, 1).size + LV(self->d_, 2).size + LV(self->d_, 3).size + LV(self->d_, 4).size == g_waiting0)
+__CPROVER_decreases(5 - i)
+''',
+    ('loop', 'TP_cleanup', 2): r'''
+__CPROVER_assigns(g_cab_frees, g_pool_frees, g_freed_tok, tasks_token->size, v_vec_cabinet_Token_cell)
+__CPROVER_loop_invariant(i < 5 && tasks_token == &LV(self->d_, i) && __exc == 0 && self->d_->lock.held == 1 && g_cab_frees == g_pool_frees && ''' + LV_SMALL + r''')
+__CPROVER_loop_invariant((i <= 0 || LV(self->d_, 0).size == 0) && (i <= 1 || LV(self->d_, 1).size == 0) && (i <= 2 || LV(self->d_, 2).size == 0) && (i <= 3 || LV(self->d_, 3).size == 0) && (i <= 4 || LV(self->d_, 4).size == 0))
+__CPROVER_loop_invariant(g_cab_frees + LV(self->d_, 0).size + LV(self->d_, 1).size + LV(self->d_, 2).size + LV(self->d_, 3).size + LV(self->d_, 4).size == g_waiting0)
+__CPROVER_decreases(tasks_token->size)
+''',
+    ('loop', 'TP_cleanup', 3): r'''
+__CPROVER_assigns(__i3, g_joins, g_deletes, v_vec_v_threadp_cell)
+__CPROVER_loop_invariant(__i3 <= __r3->size && __r3 == &thread_vec && thread_vec.size == g_nthreads && g_joins == __i3 && g_deletes == __i3 && self->d_->lock.held == 0 && T(self->d_->all_threads_stop_flag))
+__CPROVER_decreases(__r3->size - __i3)
+''',
+})
 H = lambda body: '\nvoid H(void)\n{\n' + body + '\n  __CPROVER_assert(0, "VACUITY-CANARY");\n}\n'
-def COMMON(abstract_q): return dict(tu=TU, filter='tbox::eventx', more_filters=[(TU, 'cabinet::Token'), (TU, 'tbox::event')], rename=R,
-    plugins=[StdFunction(), StdVector(abstract={'struct cabinet_Token': '1'} if abstract_q else None), StdArray(), Sync(), Chrono(abstract_time=True), StringStreamSink(), Syscalls(), OpaqueString(),
+def COMMON(abstract_q, thr_abs=False): return dict(tu=TU, filter='tbox::eventx', more_filters=[(TU, 'cabinet::Token'), (TU, 'tbox::event')], rename=R,
+    plugins=[StdFunction(), StdVector(abstract=dict({'struct cabinet_Token': '1'}, **({'struct v_thread *': 'x == g_thr'} if thr_abs else {})) if abstract_q else None), StdArray(), Sync(), Chrono(abstract_time=True), StringStreamSink(), Syscalls(), OpaqueString(),
              OpaqueTypes({r'^std::set<.*>$': 'v_set', r'^std::_Rb_tree_const_iterator<.*>$': 'v_set_it', r'^(tbox::)?cabinet::Cabinet<.*Task>$': 'v_taskcab', r'^(tbox::)?cabinet::Cabinet<std::thread>$': 'v_thrcab', r'^(tbox::)?ObjectPool<.*>$': 'v_pool'})],
     model_headers=['fn_model.h', 'vec_model.h', 'sync_model.h', 'misc_model.h'], opaque_records={'tbox::event::Loop': 'struct v_Loop'})
 ST_Q = ['v_set__find', 'v_set__end', 'v_taskcab__free', 'v_pool__free']
@@ -239,6 +297,10 @@ UNITS = [
       Target('initialize', H('  TP *p; ssize_t a, b; TP_initialize(p, a, b);'), enforce='TP_initialize', replace=['v_thrcab__alloc', 'v_thrcab__update'], timeout=900, defines=['V_THREAD_NEW_OPAQUE'],
              clause='initialize: stop flag cleared under the lock before any worker starts; min workers created'),
   ], **COMMON(True)),
+  UnitSpec(name='thread_pool_cleanup', spec=SPEC_C, emit=[C + 'cleanup'], targets=[
+      Target('cleanup', H('  TP *p; TP_cleanup(p);'), enforce='TP_cleanup', replace=['v_taskcab__free', 'v_pool__free', 'v_thrcab__size', 'v_thrcab__foreach', 'v_thrcab__clear', 'v_thread_join', 'v_delete__v_thread'], timeout=600,
+             clause='cleanup: every waiting task dropped exactly once under the lock, stop flag raised under the lock, every worker joined with the lock free and then deleted; not ready: no-op'),
+  ], **COMMON(True, True)),
 ]
 
 REPLAY_SOURCES = ['modules/eventx/thread_pool.cpp']
